@@ -375,3 +375,24 @@ Proof.
   intros o sort Hs. split; [reflexivity|]. intros ns r Hin. unfold rearrange_guarded in Hin.
   destruct (forallb (net_rec_okb o) ns) eqn:G; [|destruct Hin]. exact (points_wf o sort ns r Hs G Hin).
 Qed.
+
+(* the literal instance of Proofs/Preproc.preproc_stmt for the guarded concrete rearranger *)
+Theorem preproc_stmt_instance : forall o,
+  (forall a, wf_bytes a -> length a = 16%nat -> o_parse_ip o (o_print_ip o a) = Some a) ->
+  o_parse_ip o [] = None ->
+  (forall a, contains 44 (o_print_ip o a) = false) ->
+  forall sort, sort_spec sort ->
+  forall v2 serial pserial, serial <= max32 -> pserial = serial \/ pserial = 0 ->
+  forall f, wf_file o serial f ->
+  exists body nets kvs,
+    pre_go o pserial f = Ok (body, nets) /\
+    preprocess o (rearrange_guarded o sort) pserial f = Ok (body ++ map (marshal o) (rearrange_guarded o sort nets)) /\
+    compile o (rearrange_guarded o sort) v2 serial f = Ok kvs /\
+    forall pts, Permutation pts (rearrange_guarded o sort nets) ->
+      exists kvs', compile o (rearrange_guarded o sort) v2 serial (body ++ map (marshal o) pts) = Ok kvs' /\
+                   Permutation kvs' kvs.
+Proof.
+  intros o H1 H2 H3 sort Hs v2 serial pserial Hser Hps f Wf.
+  destruct (rearrange_guarded_hyps o sort Hs) as [G1 G2].
+  exact (preproc_stmt o H1 H2 H3 v2 serial pserial (rearrange_guarded o sort) Hser Hps G1 G2 f Wf).
+Qed.
